@@ -149,8 +149,9 @@ func printSiteCharStats(al align.Alignment, only string) (err error) {
 
 	profile = align.NewCountProfileFromAlignment(al)
 	onlyr := []uint8(only)
-	if len(onlyr) > 1 {
+	if len(onlyr) != 1 {
 		err = fmt.Errorf("character should have length 1: %s", only)
+		return
 	}
 
 	fmt.Fprintf(os.Stdout, "site")
@@ -158,8 +159,10 @@ func printSiteCharStats(al align.Alignment, only string) (err error) {
 		indexonly = -1
 	} else {
 		if indexonly, ok = profile.NameIndex(onlyr[0]); !ok {
+			// The character does not occur in the alignment: a column of zeros
+			fmt.Fprintf(os.Stdout, "\t%c\n", onlyr[0])
 			for site := 0; site < al.Length(); site++ {
-				fmt.Fprintf(os.Stdout, "%d0%d\n", site, 0)
+				fmt.Fprintf(os.Stdout, "%d\t%d\n", site, 0)
 			}
 			return
 		}
